@@ -18,6 +18,20 @@ def main():
     except Exception as e:
         traceback.print_exc()
         rep.broken("engine", "internal error: %r" % (e,))
+    if a.tier == "thorough" and not rep.broken_msgs and not os.environ.get("VSA_REPO"):
+        # armed-ness corpus: every one-instance mutant of this property must be reported, every benign twin must pass
+        sys.path.insert(0, os.path.join(os.path.dirname(os.path.dirname(os.path.abspath(__file__))), "selftest"))
+        import run as selftest
+        muts = selftest.select({a.pid})
+        res = selftest.run_many(muts, jobs=6)
+        rep.rule("SELFTEST", "armed-ness: each seeded/one-instance mutant of the corpus is reported by its rule; each behaviour-preserving twin stays silent")
+        for r in res:
+            if r.get("stale"):
+                rep.broken("SELFTEST", "mutant %s is stale: %s" % (r["name"], r.get("detail")))
+            elif r["ok"]:
+                rep.holds("SELFTEST", r["name"], "%s mutant -> rc %s %s" % (r.get("kind"), r.get("rc"), r.get("expect", "")), sample=(r.get("kind") == "break" and len(rep.samples) < 30))
+            else:
+                rep.broken("SELFTEST", "mutant %s (%s) gave rc %s, expected %s" % (r["name"], r.get("kind"), r.get("rc"), r.get("expect") or "rc 0"))
     rc = rep.finish()
     if a.replay:
         r = json.load(open(a.replay))
